@@ -490,6 +490,7 @@ bool TypeChecker::typesAreCompatible(
             switch (ty2->kind()) {
                 case TypeKind::Array:
                 case TypeKind::Basic:
+                    break;
                 case TypeKind::Function: {
                     auto funcTy1 = ty1->asFunctionType();
                     auto funcTy2 = ty2->asFunctionType();
